@@ -13,6 +13,5 @@ INVARIANT HmsRoundTrip
 INVARIANT RoundTrip
 INVARIANT TickLength
 INVARIANT OffsetsRoundTrip
-INVARIANT StartInversionExact
 INVARIANT EmitDay
 PROPERTY Monotone
